@@ -1,6 +1,8 @@
 #!/usr/bin/env python3
 """Print the markdown tables of DESIGN.md §15.7 from seeded/*/meta.json and harmless/*/meta.json."""
-import json, glob, os
+import json, glob, os, sys, io
+buf = io.StringIO(); _print = print
+def print(*a, **k): _print(*a, file=buf, **k)
 print('| change | what it does | caught by (quick tier) |\n|---|---|---|')
 for p in sorted(glob.glob('/verif/seeded/*/meta.json')):
     m = json.load(open(p))
@@ -17,3 +19,14 @@ for p in sorted(glob.glob('/verif/harmless/*/meta.json')):
     oc = ', '.join('%s: %s' % (k, v) for k, v in o.items() if not k.endswith('_detail'))
     w = ' '.join(m.get('what', '').split())
     print('| %s | %s | %s | %s |' % (m['id'], m.get('files', ''), (w[:140] + '…') if len(w) > 140 else w, oc))
+
+out = buf.getvalue().split('\n\n')
+if '--write' in sys.argv:
+    d = open('/verif/DESIGN.md').read()
+    def put(d, tag, body):
+        a = d.index('<!-- BEGIN %s -->' % tag) + len('<!-- BEGIN %s -->' % tag); b = d.index('<!-- END %s -->' % tag)
+        return d[:a] + '\n' + body.strip() + '\n' + d[b:]
+    d = put(d, 'seeded-table', out[0]); d = put(d, 'harmless-table', out[1])
+    open('/verif/DESIGN.md', 'w').write(d)
+else:
+    _print(buf.getvalue())
